@@ -561,6 +561,10 @@ class PrRun:
         self.fired = {}             # mid -> x   what the program fired that Deferred with
         self.nlogged = 0            # how many entries of E.logged_errors have been looked at
         self.nnometh = 0            # messages sent to a missing method
+        self.nturn = 0              # reactor calls so far
+        self.sent_turn = {}         # mid -> nturn when the program sent it
+        self.reg_turn = {}          # w -> nturn when the observer was registered
+        self.told_order = []        # (promise, w) in the order in which observers were told
 
     def deferred(self, mid):
         if mid not in self.dfs:
@@ -573,6 +577,7 @@ class PrRun:
     def reactor_call(self):
         """one reactor call; an AttributeError that the queue had to catch and log means that the delivery machinery itself
         raised (a missing method's AttributeError belongs inside maybeDeferred: it goes to the resolver, not to the queue)"""
+        self.nturn += 1
         ran, exc = one_reactor_call()
         if exc is not None:
             self.bad("oracle/exception-escaped-turn", "an exception left _turn: %r" % (exc,))
@@ -668,6 +673,7 @@ class PrRun:
                 self.extra[mid] = (tuple(xp), dict(xk))
                 ridx = len(self.P) if k == "send" else None
                 self.msg[mid] = (p, beh, ridx)
+                self.sent_turn[mid] = self.nturn
                 meth = "m" if invocable(beh) else NOMETH_NAME
                 if not invocable(beh):
                     self.nnometh += 1
@@ -694,9 +700,20 @@ class PrRun:
                 xp, xk = (o[4][0], o[4][1]) if len(o) > 4 and kind != "when" else ([], {})
                 ckind = o[5] if len(o) > 5 else 0        # what kind of object the observer's callback is (CALLABLE_KINDS)
                 self.watch.setdefault(p, []).append((w, kind))
+                self.reg_turn[w] = self.nturn
 
                 def told(*a, **kw):
                     x = a[0]
+                    self.told_order.append((p, w))
+                    # "never synchronously": whatever the state of the promise a message is sent to (unresolved, resolved,
+                    # chained, BROKEN), the result promise of the send cannot be resolved before the sender's turn is over
+                    # -- an observer of it that hears anything before the next reactor call ran inside the sender's turn
+                    # (a result promise the PROGRAM resolved itself, before the delivery, is the program's doing)
+                    if p in self.result_of and p not in self.accepted and self.sent_turn.get(self.result_of[p]) == self.nturn:
+                        self.bad("oracle/result-observed-in-senders-turn", "observer %d (%s) of promise %d = the result of message "
+                                 "%d (sent to promise %d) was told %r before any reactor call followed the send: the result was "
+                                 "resolved inside the sender's turn" % (w, kind, p, self.result_of[p],
+                                                                          self.msg[self.result_of[p]][0], canon_outcome(x)))
                     if (tuple(a[1:]), kw) != (tuple(xp), dict(xk)):
                         self.bad("oracle/arguments-changed", "observer %d of promise %d was registered with extra arguments %r %r "
                                  "and called with %r %r" % (w, p, tuple(xp), xk, tuple(a[1:]), kw))
@@ -861,6 +878,34 @@ class PrRun:
                 if seen != want:
                     sig = "oracle/observer-count" if len(seen) != len(want) else "oracle/observer-outcome"
                     self.bad(sig, "observer %d (%s) of promise %d was told %r; the promise's resolution is %r" % (w, kind, i, seen, e))
+            self.judge_result_order(i, e)
+
+    IMMEDIATE = ("ret", "raise", "nometh", "sendret")
+
+    def judge_result_order(self, i, e):
+        """'delivers every message sent to it, in send order', seen from outside: the messages sent to promise i whose
+        outcome is decided by the delivery itself (all of them when the promise ends BROKEN; those whose method returns a
+        value / raises / does not exist when it ends as a value) have their result promises resolved in send order.  An
+        observer registered in the turn of the send is registered before the result can be resolved, so it is notified
+        through the eventual-send queue at the moment of the resolution: the first notifications of such observers must
+        come in send order."""
+        if e is None or e == ("undelivered",):
+            return
+        first = {}
+        for n, (rp, w) in enumerate(self.told_order):
+            mid = self.result_of.get(rp)
+            if mid is None or mid in first or self.msg[mid][0] != i or rp in self.accepted:
+                continue
+            if self.reg_turn.get(w) != self.sent_turn.get(mid):
+                continue
+            if e[0] == 0 and self.msg[mid][1][0] not in self.IMMEDIATE:
+                continue
+            first[mid] = n
+        sent = [m for m in self.sent.get(i, []) if m in first]
+        seen = sorted(first, key=first.get)
+        if sent != seen:
+            self.bad("oracle/result-order", "the results of the messages sent to promise %d (which ends as %r) were observed in the "
+                     "order %r; they were sent in the order %r" % (i, e, seen[:20], sent[:20]))
 
 
 def run_pr(prog):
